@@ -240,3 +240,90 @@ def job_inverse_symbolic(job):
             out['samples'].append({'config': cfg, 'patterns': len(pats), 'example_keys': pats[-1] if pats else None})
     out['distinct'] = n
     return out
+
+
+# ------------------------------------------------------------------ replay of refuted generic-element obligations
+def job_gcase(job):
+    """Directed native replay for a refuted polynomial identity of contracts/inverse_c.py: the real operator on operands that
+    store exactly the blades of the failing shape, with random non-zero rational coefficients, against the reference product
+    (oracle.py).  A polynomial that is not identically zero is non-zero at a random point with overwhelming probability."""
+    import math
+    from standins.native import make_algebra, mv_from, showmv, ref_binary, ref_unary, BINARY, UNARY, _call, show
+    from standins import oracle as O
+    rng = random.Random(job.get('seed', 0))
+    alg = make_algebra(job['config'])
+    fr = O.Frame(alg)
+    sig = fr.sig
+    name, xk, yk = job['op'], list(job['x_keys']), job.get('y_keys')
+    out = {'evaluations': 0, 'failures': [], 'samples': []}
+
+    def vals(keys):
+        return [F(rng.choice([-1, 1]) * rng.randint(1, 9), rng.choice([1, 1, 2, 3])) for _ in keys]
+
+    def close(A, B):
+        A, B = O.nz(A), O.nz(B)
+        for k in set(A) | set(B):
+            a, b = A.get(k, 0), B.get(k, 0)
+            if isinstance(a, float) or isinstance(b, float):
+                if abs(float(a) - float(b)) > 1e-9 * max(1.0, abs(float(b))):
+                    return False
+            elif a != b:
+                return False
+        return True
+    for it in range(job.get('tries', 6)):
+        xv = vals(xk)
+        x, X = mv_from(alg, xk, xv), fr.to_ref(xk, xv)
+        rec = {'op': name, 'config': job['config'], 'a': showmv(xk, xv)}
+        y = Y = None
+        if yk is not None:
+            yv = vals(yk)
+            y, Y = mv_from(alg, list(yk), yv), fr.to_ref(list(yk), yv)
+            rec['b'] = showmv(list(yk), yv)
+        out['evaluations'] += 1
+        try:
+            if name in ('inv',):
+                G = fr.mv_to_ref(_call(alg, 'inv', x))
+                ok = close(O.gp(X, G, sig), {0: 1}) and close(O.gp(G, X, sig), {0: 1})
+                rec['what'] = 'x * inv(x) or inv(x) * x is not 1'
+                got = G
+            elif name == 'div':
+                G = fr.mv_to_ref(_call(alg, 'div', x, y))
+                ok = close(O.gp(G, Y, sig), X)
+                rec['what'] = '(x / y) * y is not x'
+                got = G
+            elif name in ('outerexp', 'outersin', 'outercos'):
+                G = fr.mv_to_ref(getattr(x, name)())
+                want, term = {}, {0: F(1)}
+                for k in range(0, alg.d + 1):
+                    if k:
+                        term = O.op(term, X, sig)
+                    if (name == 'outersin' and k % 2 == 0) or (name == 'outercos' and k % 2 == 1):
+                        continue
+                    want = O.add(want, O.scale(term, F(1, math.factorial(k))))
+                ok = close(G, want)
+                rec['what'] = f'{name}(x) is not the finite sum of wedge powers / k!'
+                rec['expected'] = {str(k): show(v) for k, v in O.nz(want).items()}
+                got = G
+            elif name in BINARY and y is not None:
+                G = fr.mv_to_ref(_call(alg, name, x, y))
+                want = ref_binary(fr, name, X, Y)
+                ok = close(G, want)
+                rec['expected'] = {str(k): show(v) for k, v in O.nz(want).items()}
+                got = G
+            elif name in UNARY:
+                G = fr.mv_to_ref(_call(alg, name, x))
+                want = ref_unary(fr, name, X)
+                ok = close(G, want)
+                rec['expected'] = {str(k): show(v) for k, v in O.nz(want).items()}
+                got = G
+            else:
+                return dict(out, note=f'no directed replay for operator {name}')
+        except ZeroDivisionError:
+            continue            # a singular operand: not a witness either way
+        if not ok:
+            rec['got'] = {str(k): show(v) for k, v in O.nz(got).items()}
+            out['failures'].append(rec)
+            break
+        if len(out['samples']) < 2:
+            out['samples'].append(rec)
+    return out
